@@ -116,7 +116,13 @@ impl Future for StatusFuture {
       #[cfg(rxrust_verif)]
       crate::verif_hooks::yield_point("StatusFuture::poll:checked-not-closed");
       self.0.waker.register(cx.waker());
-      Poll::Pending
+      // The source may have terminated (and woken nobody) between the check
+      // above and the registration: check again, as `AtomicWaker` requires.
+      if self.0.is_closed() {
+        Poll::Ready(NormalReturn::new(()))
+      } else {
+        Poll::Pending
+      }
     }
   }
 }
